@@ -81,3 +81,28 @@ func StdoutPrintf(f string, a ...interface{}) (int, error) {
 	Out().write(s)
 	return len(s), nil
 }
+
+// HookEvent is one function-entry observation (T9 hooks inserted by the
+// rewriter; used only for observation, never to change behaviour).
+type HookEvent struct {
+	Name string
+	Recv interface{}
+	Step int
+	G    int
+}
+
+// Hook records the entry of a hooked function.
+func Hook(name string, recv interface{}) {
+	w := W
+	if w == nil {
+		return
+	}
+	g := -1
+	if w.cur != nil {
+		g = w.cur.ID
+	}
+	w.Hooks = append(w.Hooks, HookEvent{Name: name, Recv: recv, Step: w.Steps, G: g})
+	if w.cfg.Trace {
+		w.Trace = append(w.Trace, TraceEvent{Step: w.Steps, G: g, Name: "hook", Op: "enter", Obj: name})
+	}
+}
